@@ -199,9 +199,34 @@ fn run_ng(id: &str, lines: &[String], out: &mut String) {
     }
 }
 
+
+fn run_leaf(id: &str, lines: &[String], out: &mut String) {
+    use adf_bdd::datatypes::ModelCounts;
+    let mut k = 0usize;
+    for line in lines {
+        let w: Vec<&str> = line.split_whitespace().collect();
+        if w.is_empty() {
+            continue;
+        }
+        let n = |i: usize| w[i].parse::<usize>().unwrap();
+        let r = match w[0] {
+            "more" => format!("more {}", ModelCounts::from((n(1), n(2))).more_models() as u8),
+            "min" => format!("min {}", ModelCounts::from((n(1), n(2))).minimum()),
+            "istv" => format!("istv {}", Term(n(1)).is_truth_value() as u8),
+            "cmpinf" => format!("cmpinf {}", Term(n(1)).compare_inf(&Term(n(2))) as u8),
+            "noinf" => format!("noinf {}", Term(n(1)).no_inf_inconsistency(&Term(n(2))) as u8),
+            "isconst" => format!("isconst {}", Var(n(1)).is_constant() as u8),
+            _ => panic!("bad leaf line {}", line),
+        };
+        writeln!(out, "{} q{} {}", id, k, r).unwrap();
+        k += 1;
+    }
+}
+
 pub fn run_case(id: &str, kind: &str, _rest: &[String], lines: &[String], out: &mut String) {
     match kind {
         "NG" => run_ng(id, lines, out),
+        "LEAF" => run_leaf(id, lines, out),
         _ => panic!("unknown case kind {}", kind),
     }
 }
